@@ -1225,6 +1225,12 @@ class Engine:
             it = VSeq(T.adj_keys(a), "Vertex", "keys")
             # each item is (key, the iterable stored under it)
             self._item_mapper = lambda x, a=a: VPyTuple([VRef(x, "Vertex", "obj"), VIter(T.adj_row(a, x), "Vertex", z3.BoolVal(False))])
+        if isinstance(it, VConst) and isinstance(it.value, tuple) and it.value[0] == "smapitems":
+            M_ = it.value[1]
+            en_ = self.registry_enum(p, M_)
+            st0_ = p.st.copy()
+            it = VSeq(en_, None, "keys")
+            self._item_mapper = lambda x, M_=M_, st0_=st0_: VPyTuple([VRef(x, None, "opaque"), VRef(st0_.read("smap_val", M_, x), None, "opaque")])
         if isinstance(it, VConst) and isinstance(it.value, tuple) and it.value[0] == "enumerate":
             it = it.value[1]
             self._enum = True
